@@ -162,7 +162,13 @@ def gen_victim(rng, sdir):
         return rng.choice(PAYLOADS).replace("{S}", os.path.join(sdir, "S%d" % k[0]))
 
     def desc():
-        c = rng.randint(0, 5)
+        c = rng.randint(0, 7)
+        if c == 6:
+            # a type spelled through a module that merely sits next to the analysed file (sentinels/../helpers.py, importable from the
+            # working directory of `python -m cdd`): mentioning it must not import it
+            return rng.choice(["A `helpers.Source` or `str`.", "List of `helpers.Source`.", "A helpers/str", "Either `helpers` or `os`."])
+        if c == 7:
+            return "One of `helpers.Source`, `b` or `c`."
         if c == 0:
             return "Either `%s` or nothing." % P()
         if c == 1:
@@ -238,13 +244,15 @@ def audit_case(case):
         victim = os.path.join(tree, "victim.py")
         src = gen_victim(rng, sdir)
         open(victim, "w").write(src)
+        open(os.path.join(tree, "helpers.py"), "w").write(
+            "import os\nopen(%r, 'w').write('a module named in a docstring was imported')\n\n\nclass Source(object):\n    pass\n" % os.path.join(sdir, "S_helpers"))
         res["victim_head"] = src[:300]
         allowed_writes = []
         before = snapshot(tree)
         if kind == "library":
             drv = os.path.join(work, "driver.py")
             open(drv, "w").write(DRIVER)
-            r = run_observed(work, [drv, tree], mode="-f", cwd=tree, timeout=300)
+            r = run_observed(work, [drv, tree], mode="-f", cwd=tree, timeout=300, extra_path=[tree])
         elif kind == "doctrans":
             fmt = rng.choice(["rest", "google", "numpydoc"])
             ta = rng.choice(["--type-annotations", "--no-type-annotations"])
